@@ -30,15 +30,13 @@ Fixpoint find_loop (t : mem) (plat : N) (enc : option N) (n : N) (fuel : nat) (i
         chk4 <- (if fmt =? 4 then
                    if sub64 len 4 <? off then Some false else
                    stl <- r16 t (off + 2) ;;
-                   if i + 1 =? n then Some (negb (sub64 len off <? stl))
-                   else nxt <- r32 t (4 + 8 * (i + 1) + 4) ;; Some (negb (nxt <? stl))
+                   Some (negb (sub64 len off <? stl))            (* the subtable must fit between its offset and the end of the table *)
                  else Some true) ;;
         if negb chk4 then Some None else
         chk12 <- (if fmt =? 12 then
                     if sub64 len 6 <? off then Some false else
                     stl <- r32 t (off + 2) ;;
-                    if i + 1 =? n then Some (negb (sub64 len off <? stl))
-                    else nxt <- r32 t (4 + 8 * (i + 1) + 4) ;; Some (negb (nxt <? stl))
+                    Some (negb (sub64 len off <? stl))
                   else Some true) ;;
         if negb chk12 then Some None else Some (Some off)
       else find_loop t plat enc n fuel' (i + 1)
